@@ -295,8 +295,10 @@ func dispatchOnlyFromTable(e *Env, rule string) {
 		for _, l := range valueLeaves(core.Resolve(core.Arg(c, 0))) {
 			ex, isEx := l.(*ssa.Extract)
 			if isEx {
-				if lc, isC := ex.Tuple.(*ssa.Call); isC && strings.HasSuffix(core.CalleeName(lc), "sync.Map.Load") && strings.HasSuffix(tableOf(lc), ".observations") {
-					continue
+				if lc, isC := ex.Tuple.(*ssa.Call); isC {
+					if _, isLookup := observationLookup(e, lc); isLookup {
+						continue
+					}
 				}
 			}
 			bad = "the observation dispatched to at " + e.pos(c) + " does not come from a lookup in the observation table (a cancelled observation can still be reached)"
@@ -518,6 +520,60 @@ func limitDefaultsOwnVariable(e *Env, rule string) {
 	}
 	check := func(what string, v ssa.Value, p *ssa.Parameter) {
 		ok, why := false, what+" is not `param, or unlimited when param <= 0`"
+		// the normalisation moved into a helper: `limit = normalize(param)` – the helper's returns are its parameter or the
+		// constant, selected by a test of that parameter only
+		if call, isCall := core.Unwrap(v).(*ssa.Call); isCall && p != nil {
+			if h := core.AbsorbedCallee(call); h != nil && h.Signature.Results().Len() == 1 {
+				k := -1
+				for i, a := range call.Call.Args {
+					if core.Unwrap(a) == ssa.Value(p) {
+						k = i
+					}
+				}
+				if k >= 0 && k < len(h.Params) {
+					hp := h.Params[k]
+					hasParam, hasMax, other := false, false, false
+					for _, ret := range core.ReturnsOf(h) {
+						for _, l := range valueLeaves(core.RetVal(ret, 0)) {
+							switch x := core.Unwrap(l).(type) {
+							case *ssa.Parameter:
+								if x == hp {
+									hasParam = true
+								} else {
+									other = true
+								}
+							case *ssa.Const:
+								hasMax = true
+							default:
+								other = true
+							}
+						}
+					}
+					tested, foreign := false, false
+					for _, i := range core.IfsOf(h) {
+						if i.Parent() != h {
+							continue
+						}
+						c, isC := core.AsCmp(i.Cond)
+						if !isC {
+							continue
+						}
+						switch x := core.Unwrap(c.X).(type) {
+						case *ssa.Parameter:
+							if x == hp {
+								tested = true
+							} else {
+								foreign = true
+							}
+						}
+					}
+					ok = hasParam && hasMax && !other && tested && !foreign
+					if foreign {
+						why = what + " becomes unlimited under a test of another parameter"
+					}
+				}
+			}
+		}
 		if ph, isPhi := core.Unwrap(v).(*ssa.Phi); isPhi && p != nil {
 			hasParam, hasMax, otherLeaf := false, false, false
 			for _, l := range rawPhiLeaves(ph) {
